@@ -75,3 +75,61 @@ Example C09_nonvacuous :
   map snd (filter (fun e => match snd e with LGot _ _ _ => true | _ => false end) (llog s))
   = [LGot 0%nat 0 10; LGot 1%nat 1 20; LGot 1%nat 2 11].
 Proof. vm_compute. reflexivity. Qed.
+
+(* ---- Chan/LogOrder.v: the remaining clauses ---- *)
+From RM Require Import LogOrder.
+
+(* one total order, consistent with every producer's send order: the publications that were answered are, in answer order, exactly the
+   log entries with their positions 0, 1, 2, ... (a producer's sends answer one after the other, so its events sit in the log in its send
+   order) *)
+Theorem C09_answered_publications_are_the_log :
+  forall evs, let s := fold_left lexec evs linit in pubs (llog s) = numbered (logv s).
+Proof. exact pubs_are_the_log. Qed.
+Print Assumptions C09_answered_publications_are_the_log.
+
+Theorem C09_publication_order :
+  forall evs a b v p w q, pubs (llog (fold_left lexec evs linit)) = a ++ (v, p) :: b -> In (w, q) b -> p < q.
+Proof. exact publication_order. Qed.
+Print Assumptions C09_publication_order.
+
+(* nothing missing: a subscriber for new events (or old-and-new, joined) is told "nothing there" only when it has yielded every position
+   visible at the moment it looks ... *)
+Theorem C09_new_stream_empty_answer_is_exact :
+  forall own evs t i h, Forall (wf_lev own) evs ->
+    let s := fold_left lexec evs linit in
+    lthr s t = LC1 i h -> ctail s <= h ->
+    h = ctail s /\ gots i (llog s) = zseq (sfrom (subs s i)) (Z.to_nat (ctail s - sfrom (subs s i))).
+Proof. exact dyn_empty_answer_is_exact. Qed.
+Print Assumptions C09_new_stream_empty_answer_is_exact.
+
+(* ... and the "old events" stream of a split is told so - and ends - exactly when it has yielded every position below the split point;
+   it never yields one at or above it *)
+Theorem C09_old_stream_ends_exactly_at_the_split :
+  forall own evs t i h, Forall (wf_lev own) evs ->
+    let s := fold_left lexec evs linit in
+    lthr s t = LC2 i h -> sk (subs s i) = SFix ->
+    h = sfx (subs s i) /\ gots i (llog s) = zseq (sfrom (subs s i)) (Z.to_nat (sfx (subs s i) - sfrom (subs s i))).
+Proof. exact fix_empty_answer_is_exact. Qed.
+Print Assumptions C09_old_stream_ends_exactly_at_the_split.
+
+Theorem C09_old_stream_never_beyond_the_split :
+  forall own evs i, Forall (wf_lev own) evs ->
+    let s := fold_left lexec evs linit in
+    sk (subs s i) = SFix -> exists n, gots i (llog s) = zseq (sfrom (subs s i)) n /\ Z.of_nat n <= sfx (subs s i) - sfrom (subs s i).
+Proof. exact fix_never_beyond. Qed.
+Print Assumptions C09_old_stream_never_beyond_the_split.
+
+(* non-vacuity of the two "exact empty answer" theorems: a joined subscriber that yielded position 0 and looks again at an unchanged log;
+   an old / new split at k = 1 whose old stream yielded position 0 and asks again *)
+Example C09_exact_empty_nonvacuous :
+  let own := fun _ : nat => 2%nat in
+  let e1 := [LStart 2 (LSubJoined 0); LStep 2; LStart 0 (LPub 7)] ++ repeat (LStep 0) 3 ++ [LStart 2 (LCons 0)] ++ repeat (LStep 2) 3 ++
+            [LStart 2 (LCons 0); LStep 2] in
+  let e2 := [LStart 0 (LPub 7)] ++ repeat (LStep 0) 3 ++ [LStart 2 (LSubSplit 0 1)] ++ repeat (LStep 2) 3 ++
+            [LStart 2 (LCons 0)] ++ repeat (LStep 2) 2 ++ [LStart 2 (LCons 0); LStep 2] in
+  let s1 := fold_left lexec e1 linit in let s2 := fold_left lexec e2 linit in
+  (Forall (wf_lev own) e1 /\ lthr s1 2%nat = LC1 0 1 /\ ctail s1 = 1 /\ gots 0 (llog s1) = [0]) /\
+  (Forall (wf_lev own) e2 /\ lthr s2 2%nat = LC2 0 1 /\ sk (subs s2 0%nat) = SFix /\ sfx (subs s2 0%nat) = 1 /\ gots 0 (llog s2) = [0]).
+Proof.
+  split; (split; [cbn [app repeat]; repeat (apply Forall_cons; [cbn; auto|]); apply Forall_nil|vm_compute; repeat split; reflexivity]).
+Qed.
